@@ -35,7 +35,7 @@ REQUIRED = {'cia:range-spelt-differently': 0.04, 'request-while-absent': 0.03, '
 # coverage-guided extra (thorough tier): pure-Python taurex modules on this property's path, instrumented by atheris
 FUZZ = {'include': ['taurex.opacity', 'taurex.cia', 'taurex.cache', 'taurex.util.util'], 'runs': 8000, 'workers': 4}
 
-UNITS = {'bar': 1e5, 'Pa': 1.0, 'kPa': 1000.0, 'mbar': 100.0}
+UNITS = {'bar': 1e5, 'Pa': 1.0, 'kPa': 1000.0, 'mbar': 100.0, 'Torr': 101325.0 / 760.0}      # 1 Torr = 1/760 standard atmosphere, by definition
 NAMES = [('H2O', '1H2-16O'), ('CO2', '12C-16O2'), ('CH4', '12C-1H4'), ('NH3', 'NH3'), ('CO', 'CO'), ('TiO', '48Ti-16O')]
 
 
@@ -49,7 +49,7 @@ def _table(draw, nwn=None):
             'lP0': draw(st.floats(-6.0, 1.0)), 'dlP': draw(st.lists(st.floats(0.5, 3.0), min_size=2, max_size=2)),
             'wn0': draw(st.floats(50.0, 5000.0)), 'dwn': draw(st.floats(0.5, 500.0)),
             'base': draw(st.floats(-36.0, -2.0)), 'delta': draw(st.lists(st.floats(0.0, 4.0), min_size=n, max_size=n)),
-            'unit': draw(st.sampled_from(['bar', 'Pa', 'kPa', 'mbar']))}
+            'unit': draw(st.sampled_from(['bar', 'Pa', 'kPa', 'mbar', 'Torr']))}
 
 
 STRATA = {'cia': 2, 'xsec': 2, 'cache': 2, 'ktable': 1.5}
@@ -411,7 +411,9 @@ def check_cia(out, c, tmp):
             v = np.asarray(cut(out, 'cia@hitran', hc.cia, float(T)), dtype=float)
         out.applies('cia-values')
         want = ref_cia(float(T))
-        if v.shape != want.shape or not close(v, want, rtol=1e-9, atol=1e-70):
+        # (x1 - f (x1 - x2) with f within an ulp of one leaves a residue of eps x1 where the exact value is x2 = 0: an absolute
+        # floor of a few ulp of the largest coefficient tabulated at that wavenumber)
+        if v.shape != want.shape or not close(v, want, rtol=1e-9, atol=1e-70 + 1e-15 * si.max(axis=0)):
             out.fail('cia-values@hitran,%s' % ('split' if len(ranges) > 1 else 'single'), 'T=%g: %s, reference %s' % (T, v[:4], want[:4]))
             break
     if len(ranges) == 1:
